@@ -216,6 +216,15 @@ def check(ctx):
                  "year(1)", "floor(\"a\")", "\"a\" + \"b\"", "\"a\" == \"a\"", "#2020-01-01# + 10^30", "#2020-01-01# - 10^30 s", "#2020-01-01# + 1e300 s",
                  "#2020-01-01# + 1 m", "#0001-01-01# - 1", "#9999-12-31# + 1", "ceil(#9999-12-31#)", "#2020-01-01T00:00+01:00# < #2020-01-01#"]:
         run(text, "corpus")
+    # ---- (iii') structurally deep inputs: nesting and chain lengths around and far beyond the host's recursion limit
+    for depth in [10, 40, 65, 69, 70, 71, 100, 400] + ([150, 1000, 5000] if not ctx.quick() else [3000]):
+        for opener, closer, core_ in [("(", ")", "1"), ("{", "}", "1"), ("[", ", 2]", "1"), ("sin(", ")", "1"), ("abs(", ")", "0-1"), ("{x : x in ", "}", "1..2"),
+                                      ("(1+", ")", "1"), ("2*(", ")", "3 m"), ("max(1, ", ")", "2"), ("-(", ")", "1")]:
+            run(opener * depth + core_ + closer * depth, "depth/%s" % opener.strip())
+        for chain in ["+".join(["1"] * (depth * 15)), "*".join(["2"] * (depth * 15)), "1" + "!" * depth, "-" * depth + "1", "1" + " m" * depth,
+                      "x=1;" * depth + "x", ";".join(["1"] * (depth * 10)), "{" + ", ".join(["1"] * (depth * 10)) + "}", "1 < " * depth + "2",
+                      "2" + "^2" * min(depth, 12), "(" * depth, ")" * depth, "(" * depth + "1", "1" + ")" * depth, "{" * depth + "1" + "}" * (depth - 1)]:
+            run(chain, "depth/chain")
     # ---- (iv) well-formed random programs
     import importlib
     sys.path.insert(0, os.path.join(core.VERIF, "harness", "props"))
